@@ -177,6 +177,16 @@ def r2_pool_key_site(ctx, R2, R6):
     for r in rows:
         nps = [_args(e) for e in r.events("call") if e[1] == "self._new_pool"]
         gets = [[a for a in e[1:] if isinstance(a, str)] for e in r.events("cache_get")]
+        # the same lookup spelt pools[key] (with KeyError handled) or `key in pools`
+        texts = [r.out] + [k_ for k_ in r.st.facts if isinstance(k_, str)]
+        for t_ in texts:
+            for x_ in set(subterms(t_.split(":", 1)[-1] if t_.startswith(("return:", "raise:")) else t_)):
+                o_, a_ = destruct(x_)
+                if o_ in ("idx", "get") and len(a_) >= 2 and a_[0] == "self.pools" and [a_[1]] not in gets:
+                    gets.append([a_[1]])
+        for k_ in r.st.ts:
+            if isinstance(k_, tuple) and len(k_) == 4 and k_[0] == "cmp" and k_[2] == "in" and k_[3] == "self.pools" and [k_[1]] not in gets:
+                gets.append([k_[1]])
         sets = [(e[2], e[3]) for e in r.events("setitem") if e[1] == "self.pools"]
         k_ = (tuple(map(tuple, nps)), tuple(map(tuple, gets)), tuple(sets))
         if k_ in seen:
